@@ -265,3 +265,23 @@ Theorem C03_gen_roundtrip : forall t, Wf t -> NoDupKeys t ->
     g_as_bytes false t' = g_as_bytes false t /\ g_digest false t' = g_digest false t.
 Proof. exact gen_roundtrip. Qed.
 Print Assumptions C03_gen_roundtrip.
+
+(* ---- Tree.load: the stored listing re-loads to the same (path, digest) pairs; the empty listing too ---- *)
+Theorem C03_gen_load_empty : forall odb_name, g_load odb_name None (g_as_bytes false []) = FlOk [].
+Proof. exact gen_load_empty. Qed.
+Print Assumptions C03_gen_load_empty.
+
+Theorem C03_gen_load_roundtrip : forall t, Wf t -> NoDupKeys t ->
+  exists t', g_load s_md5 None (g_as_bytes false t) = FlOk t' /\
+    map obs t' = sorted_obs t /\ Permutation (map obs t') (map obs t) /\
+    g_as_bytes false t' = g_as_bytes false t /\ g_digest false t' = g_digest false t.
+Proof. exact gen_load_roundtrip. Qed.
+Print Assumptions C03_gen_load_roundtrip.
+
+Theorem C03_gen_load_roundtrip_dos2unix : forall t, Wf t -> NoDupKeys t ->
+  (forall e, In e t -> md5_valued (obs e)) ->
+  exists t', g_load s_md5_dos2unix None (g_as_bytes false t) = FlOk t' /\
+    map obs t' = sorted_obs t /\ Permutation (map obs t') (map obs t) /\
+    g_as_bytes false t' = g_as_bytes false t /\ g_digest false t' = g_digest false t.
+Proof. exact gen_load_roundtrip_d2u. Qed.
+Print Assumptions C03_gen_load_roundtrip_dos2unix.
